@@ -156,6 +156,9 @@ def run(ck):
     ck.ob("WHO", "sha2 in trie", "hashers", not bad and len(trie_dig) >= 3, "functions creating a SHA-256 state in the trie: %s" % [x.split("::")[-3:] for x in trie_dig], "")
 
     format_rules(ck, c)
+    # the frozen hash reflects every in-place change only if the changed node is detached from its persistent original
+    from .c03 import marked_rules
+    marked_rules(ck)
 
     # canonical stems: an odd-length stem keeps only the high nibble of its last byte (the padding nibble is zero); the stem
     # bytes are hashed and stored as they are, so a stray nibble makes the hash depend on the history
